@@ -19,6 +19,7 @@ pub fn config_name() -> &'static str {
         (true, true, true, true, false) => "cmprdx",
         (false, false, false, false, false) => "nostd",
         (false, true, false, false, false) => "nostd_cmp",
+        (false, false, true, true, false) => "nostd_rdx",
         _ => "other",
     }
 }
